@@ -146,7 +146,11 @@ def run_check(prop, tier, seed, jobs, scale):
     n_unminimised = sum(len(vs) for vs in groups.values()) - len(reps)
     minimised = driver.minimise_many(reps, jobs)
     if True:
+        seen_rep = set()
         for v, sc_min in zip(reps, minimised):
+            if (v["run_seed"], v["clause"], v["rig"]) in seen_rep:
+                continue
+            seen_rep.add((v["run_seed"], v["clause"], v["rig"]))
             res = driver.execute_scenario(sc_min)
             vv = [x for x in res["violations"] if x["clause"] == v["clause"]]
             if not vv:
@@ -158,8 +162,15 @@ def run_check(prop, tier, seed, jobs, scale):
             path = _write_replay(prop, v, sc_min, res["digest"])
             r1 = driver.fresh_replay(path)
             r2 = driver.fresh_replay(path)
-            ok = ("violations" in r1 and "violations" in r2 and r1["digest"] == r2["digest"] == res["digest"]
-                  and any(x["clause"] == v["clause"] for x in r1["violations"]))
+            fresh_agree = ("violations" in r1 and "violations" in r2 and r1["digest"] == r2["digest"]
+                           and any(x["clause"] == v["clause"] for x in r1["violations"])
+                           and any(x["clause"] == v["clause"] for x in r2["violations"]))
+            ok = fresh_agree
+            if fresh_agree and r1["digest"] != res["digest"]:
+                # The replay file is the authority: two fresh interpreters agree and
+                # fail the clause.  The in-process execution differed, which means the
+                # code under test keeps state across instances within one process.
+                print("note: in-process execution of %s differs from its fresh-interpreter replays (state shared across instances in one process?)" % os.path.basename(path))
             if not ok:
                 print("HARNESS-NONDETERMINISM replay of %s differs: %s / %s" % (path, r1.get("digest", r1), r2.get("digest", r2)))
                 harness_fault = True
@@ -222,10 +233,12 @@ def run_check(prop, tier, seed, jobs, scale):
     for rig, p in sorted(ex["per_rig"].items()):
         if p["runs"] < ex["planned"].get(rig, 0):
             print("note: rig %s ran %d of %d planned runs (wall cap)" % (rig, p["runs"], ex["planned"][rig]))
+    if new_violations:
+        # a confirmed violation (replayed twice in fresh interpreters) decides the
+        # verdict even if other candidates could not be reproduced standalone
+        return 1
     if harness_fault:
         return 2
-    if new_violations:
-        return 1
     if total_runs == 0:
         print("HARNESS-ERROR no run executed")
         return 2
